@@ -14,8 +14,17 @@ ARGS = ["", "1", "3", "-1", "0", "99999", "R1", "r1", "pc", "PC", ".", "*", "nol
         "pc = 0-1", "pc = 70000", "pc = 3", "R13 = 60000", "0x", "0b2", "1_0", "100000", "-32769", "R16", "R1 R2 R3", "\t", "é", "\x00"]
 
 
+# print with every format letter (also combined, capitalised, unknown) on values at and beyond every boundary,
+# negative ones and locations included
+FORMATS = [":d", ":x", ":o", ":b", ":c", ":s", ":l", ":dl", ":xl", ":sl", ":cl", ":xdscl", ":C", ":S", ":CSl", ":z", ":dd", ":lll"]
+PRINT_VALUES = ["-1", "-5", "-100", "0-500", "0-32768", "65535", "65536", "70000", "99999", "32768", "127", "128", "0", "pc", "PC_ret", "R13",
+                "R1", "@R1", "pc - 40100", "pc+1", "3 - 50, 7", "nolabel", "-pc", "R13, pc, -3"]
+
+
 def gen_line(rng, labels):
     k = rng.random()
+    if k < 0.12:
+        return "{} {} {}".format(rng.choice(["print", "p"]), rng.choice(FORMATS + [""]), rng.choice(PRINT_VALUES + labels)).replace("  ", " ")
     if k < 0.7:
         cmd = rng.choice(COMMANDS)
         n = rng.choice([0, 1, 1, 2])
@@ -40,6 +49,9 @@ def prepare(shell, rng, state):
             if shell.debugger.finished() or shell.debugger.vm.expected_returns:
                 break
             dbg.feed(shell, "step" if (not shell.debugger.finished() and shell.debugger.op().name == "CALL") else "next")
+    elif state == "negative":
+        dbg.feed(shell, "execute SET(R13, -100)")
+        shell.debugger.vm.pc = -rng.choice([1, 5, 100, 40000])
     elif state == "weird-stack":
         dbg.feed(shell, "execute SET(R13, 60000)")
         shell.debugger.vm.expected_returns.append((60000, 60001))
@@ -50,7 +62,7 @@ def check(seed, n):
     violations = []
     evals = 0
     seen = set()
-    states = ["start", "middle", "finished", "pc-outside", "in-call", "weird-stack"]
+    states = ["start", "middle", "finished", "pc-outside", "in-call", "weird-stack", "negative"]
     hist = {}
     for k in range(n):
         text = dbgsem.gen_program(rng, seed * 733 + k)
@@ -70,7 +82,7 @@ def check(seed, n):
             out, errs, exc, cont = dbg.feed(shell, line, limit=5)
             proto.sample("shellfuzz", {"state": state, "line": line, "program": text[:200]})
             evals += 1
-            if exc and exc.startswith("Hang") and (state in ("pc-outside", "weird-stack") or any(
+            if exc and exc.startswith("Hang") and (state in ("pc-outside", "weird-stack", "negative") or any(
                     w in " ".join(done) for w in ("=", "assign", "exec", "goto", " g ", "on ", "off ", "e "))):
                 # the user's own changes to the machine can make the program loop for ever: not a hang of the debugger
                 break
